@@ -181,12 +181,19 @@ template <class T> struct TagAlloc {
 };
 
 // ---------------------------------------------------------------- counting stop token of the outer receiver
+// w->regs = callbacks registered on the outer source that have neither been deregistered nor dequeued for
+// execution (a callback that the source is currently running has been unlinked from the source: that is the
+// removedDuringCallback protocol of inplace_stop_source, and the reading of C04 adopted in DESIGN.md section 5).
 struct CountingToken {
   World* w; unifex::inplace_stop_token tok;
   template <class F> struct callback_type {
-    World* w; unifex::inplace_stop_callback<F> cb;
-    template <class F2> callback_type(CountingToken t, F2&& f) : w(t.w), cb(t.tok, (F2&&)f) { ++w->regs; }
-    ~callback_type() { --w->regs; }
+    struct Wrapped {
+      World* w; bool* executed; F f;
+      void operator()() noexcept { *executed = true; --w->regs; f(); }   // f() may destroy this callback object
+    };
+    World* w; bool executed = false; unifex::inplace_stop_callback<Wrapped> cb;
+    template <class F2> callback_type(CountingToken t, F2&& f) : w(t.w), cb(t.tok, Wrapped{t.w, &executed, F((F2&&)f)}) { ++w->regs; }
+    ~callback_type() { if (!executed) --w->regs; }
   };
   bool stop_requested() const noexcept { return tok.stop_requested(); }
   bool stop_possible() const noexcept { return tok.stop_possible(); }
